@@ -249,6 +249,32 @@ func runGeneration(ev *evaluator, res *vh.Result, seed uint64, n int, tier strin
 		}(cases[i])
 	}
 	wg.Wait()
+	// confirm every failure once more (doubled timeout) to rule out load-dependent flakes
+	{
+		var wgc sync.WaitGroup
+		semc := make(chan struct{}, nw)
+		slow := &evaluator{pool: ev.pool, timeout: 2 * ev.timeout}
+		for _, c := range cases {
+			for j := range c.verdicts {
+				if c.verdicts[j].kind == "" || !c.verdicts[j].judged {
+					continue
+				}
+				wgc.Add(1)
+				semc <- struct{}{}
+				go func(c *caseResult, j int) {
+					defer wgc.Done()
+					defer func() { <-semc }()
+					v2 := slow.evalProgram(c.prog.Text, c.prog.Probes, []config{c.cfgs[j]})[0]
+					if !v2.judged || v2.kind != c.verdicts[j].kind {
+						c.verdicts[j] = verdict{judged: false, kind: "unconfirmed", detail: c.verdicts[j].kind}
+						return
+					}
+					c.verdicts[j] = v2
+				}(c, j)
+			}
+		}
+		wgc.Wait()
+	}
 
 	type failing struct {
 		idx int
@@ -273,6 +299,11 @@ func runGeneration(ev *evaluator, res *vh.Result, seed uint64, n int, tier strin
 		}
 		anyJudged := false
 		for j, v := range c.verdicts {
+			if v.kind == "unconfirmed" {
+				res.NotJudged++
+				res.Hist("not_judged", "unconfirmed-"+v.detail)
+				continue
+			}
 			if !v.judged {
 				res.NotJudged++
 				res.Hist("not_judged", v.reason)
@@ -283,16 +314,10 @@ func runGeneration(ev *evaluator, res *vh.Result, seed uint64, n int, tier strin
 				continue
 			}
 			anyJudged = true
-			if v.kind != "" {
-				// confirm once more (alone, with a doubled timeout) to rule out load-dependent flakes
-				slow := &evaluator{pool: ev.pool, timeout: 2 * ev.timeout}
-				v2 := slow.evalProgram(c.prog.Text, c.prog.Probes, []config{c.cfgs[j]})[0]
-				if !v2.judged || v2.kind != v.kind {
-					res.NotJudged++
-					res.Hist("not_judged", "unconfirmed-"+v.kind)
-					continue
-				}
-				v = v2
+			if v.kind == "unconfirmed" {
+				res.NotJudged++
+				res.Hist("not_judged", "unconfirmed-"+v.detail)
+				continue
 			}
 			res.Evaluations++
 			res.Hist("config", c.cfgs[j].String())
